@@ -43,6 +43,11 @@ type c10Builder struct {
 
 func (w *c10Builder) s(x string) { w.b = append(w.b, x...) }
 func (w *c10Builder) ws() {
+	if rapid.IntRange(0, 59).Draw(w.t, "longws") == 0 {
+		// white space of any length is layout, nothing more
+		w.s(strings.Repeat(rapid.SampledFrom([]string{" ", "\n", " \t", "\r\n"}).Draw(w.t, "wsunit"), rapid.SampledFrom([]int{120, 250, 300, 1000, 2500}).Draw(w.t, "wsn")))
+		return
+	}
 	w.s(rapid.SampledFrom(jWS).Draw(w.t, "ws"))
 }
 
@@ -210,6 +215,12 @@ func c10Gen(t *rapid.T) c10Case {
 				`"quoted":"x\"type\":\"Feature\""`, `"quoted":"\"log\":{\"version\":1}"`, `"q":"\"asset\""`,
 				`"x":{"type":"Feature"}`, `"x":[{"type":"Feature"}]`, `"x":{"log":{"version":1}}`, `"x":{"asset":{"version":"2.0"}}`,
 			}).Draw(t, "la")
+			if rapid.IntRange(0, 7).Draw(t, "padded") == 0 {
+				// keys and values that only BEGIN like the deciding ones, 1-65536 bytes longer
+				pad := strings.Repeat("x", rapid.SampledFrom([]int{1, 249, 256, 512, 65536}).Draw(t, "padn"))
+				la = rapid.SampledFrom([]string{`"log":{"version` + pad + `":1}`, `"log":{"creator` + pad + `":{}}`, `"log":{"entries` + pad + `":[]}`, `"asset":{"version` + pad + `":"2.0"}`,
+					`"type` + pad + `":"Feature"`, `"type":"Feature` + pad + `"`, `"asset":{"version":"2.0` + pad + `"}`, `"log` + pad + `":{"version":1}`, `"asset` + pad + `":{"version":"1.0"}`}).Draw(t, "paddedla")
+			}
 			w.s(la)
 			for _, ch := range la {
 				if ch == '[' || ch == '{' {
